@@ -142,6 +142,17 @@ CLAIMED = {
         note='Trusted: Coq kernel, History model, fresh-interpreter references, probe set. Nested contexts are outside the quantifier. Two fix: commits (_code_matches, parse_setext).',
         technique='Coq proof (fold over histories) for the token lists + history oracle against fresh interpreters and the stateless model',
         design='5/C11'),
+    'C01': dict(
+        text='PARTIAL. Theorems for ALL token configurations, buffers, states and nested tokenizers about the block model: the dispatch loop is never ended by its '
+             'fuel (any larger fuel gives the same result) and every block reader except the link-definition scanner consumes at least one line whenever it '
+             'accepts one (so the loop advances); the renderer models are total functions of the tree. That the IMPLEMENTATION never raises and finishes within '
+             'the time budget is decided by the oracle: 14 renderer configurations (all 11 renderers, options, max_line_length 1/3/10) x str/list/file input over '
+             'spec examples, mutations, random strings, generated documents, all short strings over a 12-symbol alphabet and deep nesting, under a 10 s alarm; '
+             'and by correspondence of outcomes (the model always returns a tree, so an exception is a disagreement).',
+        note='Trusted: Coq kernel, parser/renderer models (totalised: partial Python operations return sentinels), the oracle alarm. No theorem about CPython regex running time, '
+             'the recursion limit, Pygments, Jira/XWiki. Two fix: commits (Delimiter slice, empty containers in Jira/XWiki).',
+        technique='Coq proof (induction over the dispatch loop and reader loops) + totality oracle over all renderers + outcome correspondence',
+        design='5/C01'),
 }
 
 NOT_YET = {}
